@@ -20,9 +20,10 @@ check("C01",
       "with boundary instants, not exhausted: TLA+ has no floats, the model decides ownership structure only.",
       "TLA+ spec + TLC model checking + TLC trace validation of replayed spec behaviours (numeric half sampled)", "DESIGN.md §6 C01")
 check("C02",
-      "TLC model-checks the reference list model (spec/AwStore.tla) exhaustively on small constants; behaviours simulated by TLC from the same "
-      "specification plus random abstract histories are replayed on memory/sqlite/peewee and every recorded call with the full observed state "
-      "of all buckets is validated by TLC against the specification's step relation (trace validation, canary traces must be rejected).",
+      "TLC model-checks the reference list model (spec/AwStore.tla) exhaustively on small constants and checks that the design layers of the three backends "
+      "(AwSqliteDesign, AwPeeweeDesign, AwMemoryDesign: tables / lists, id allocation, row selections, caches) refine its step relation, with the pinned tree's statements refuted as negative controls; "
+      "behaviours simulated by TLC from the same specification, random abstract histories, every transition of a bounded instance printed by TLC (AwStoreEdges) and the repository's own datastore tests as recorded "
+      "are replayed on memory/sqlite/peewee and every recorded call with the full observed state of all buckets is validated by TLC against the specification's step relation (trace validation, canary traces must be rejected).",
       "Trusted: TLC, the JSON projection of the harness (ticks/data names), small-scope hypothesis for the bounded model; histories are sampled, not exhaustive.",
       "TLA+ spec + TLC model checking + TLC trace validation of replayed spec behaviours", "DESIGN.md §6 C02")
 check("C03",
@@ -33,12 +34,14 @@ check("C03",
       "TLA+ relational spec + TLC model checking of the design layer + TLC trace validation of recorded reads", "DESIGN.md §6 C03")
 check("C04",
       "Same specification and judge as C02 with the frame clause (all other buckets read back identical, events and metadata) evaluated on every recorded call, "
-      "including calls with ids that are live in another bucket or dead and events whose instants coincide across buckets.",
+      "including calls with ids that are live in another bucket or dead and events whose instants coincide across buckets; FrameOK is checked on the sqlite and peewee design layers; "
+      "frame probes (a run of writes without reads, one call addressed to another bucket, one observation) come with a control execution of the same history without that call, so that TLC attributes a lost or changed write to that call.",
       "Trusted: as C02. Out-of-contract calls may be rejected or change the addressed bucket arbitrarily; only other buckets are constrained.",
       "TLA+ spec + TLC model checking (Frame action property) + TLC trace validation", "DESIGN.md §6 C04")
 check("C05",
       "Bucket lifecycle actions of spec/AwStore.tla (create/update/delete/absent-bucket outcomes) model-checked by TLC (CreatedEmpty, CreatedStable, Frame) and "
-      "validated against recorded lifecycle-heavy histories on the three backends: listing, lookup, metadata, events and exception classes after every call.",
+      "validated against recorded lifecycle-heavy histories on the three backends: listing, lookup, metadata, events and exception classes after every call; the Datastore wrapper's handle cache is a design layer of its own "
+      "(AwDatastoreDesign: the cache never names a missing bucket, lookup raises KeyError exactly for missing buckets) whose complete state graph is replayed edge by edge on the real wrapper and judged on caller-visible outcomes.",
       "Trusted: as C02. Name of a bucket created without one is free; duplicate creation and event calls through stale handles are not generated.",
       "TLA+ spec + TLC model checking + TLC trace validation", "DESIGN.md §6 C05")
 check("C06",
@@ -50,7 +53,7 @@ check("C06",
       "TLA+ spec + TLC model checking + crash-point enumeration judged by TLC trace validation", "DESIGN.md §6 C06", level="model_checking")
 check("C18",
       "Same model, generator and judge as C06 with a virtual clock: the design layer's AgeBound is model-checked (and refuted for the reversed age test); histories with clock ticks "
-      "{1,9,11,15,16,30,3600 s} between writes are run on sqlite, and at every crash point the judge demands that an event write issued >= 15 s after the last observed flush is durable once it has returned.",
+      "{1,9,11,15,16,30,3600 s} between writes are run on sqlite, and at every crash point the judge demands that an event write issued >= 15 s after the last flush observed BEFORE the call was issued is durable as a whole once it has returned (a commit the call performs part-way does not excuse the rest of the call).",
       "Trusted: as C06; the virtual clock shifts datetime.now/time.time/time.monotonic; AgeMust = 15 s is the property layer's reading of 'more than about ten seconds' (10..15 s is left free).",
       "TLA+ spec + TLC model checking + virtual-clock crash-point traces judged by TLC", "DESIGN.md §6 C18", level="model_checking")
 check("C07",
